@@ -34,6 +34,8 @@ rule fsd { condition: defined filesize }
 rule fsx { condition: filesize < 50 or uint8(filesize - 1) == 0x61 }
 rule pe1 { condition: pe.number_of_sections > 0 and pe.entry_point >= 0 }
 rule elf1 { condition: elf.type == elf.ET_EXEC or elf.type == elf.ET_DYN }
+rule ispe { condition: pe.is_pe }
+rule pedll { condition: pe.is_pe and (pe.characteristics & pe.DLL) != 0 and pe.entry_point >= 0 }
 rule m1 { condition: math.entropy(0, filesize) > 1.0 }
 rule s1 { strings: $a = "abc" $b = /ab+c/ $c = { 4D 5A } condition: any of them }
 rule s2 { strings: $a = "a" condition: #a > 2 }
@@ -112,6 +114,7 @@ def make_inputs(tier):
         14: ("file", b"file entry point abc abbc zz hello a"),
         15: ("fd", rd("tiny")),
         16: ("file", rd(elf)),
+        30: ("buf", rd("mtxex.dll")),       # a PE DLL: not a PE at all for the pe module when SCAN_FLAGS_PROCESS_MEMORY is set
         # regexps with backward code reaching YR_MAX_STRING_MATCHES in the middle of a run (other fibers alive), and a
         # regexp that needs about 800 of the RE_MAX_FIBERS fibers of the scanner's pool
         20: ("fill", (b"a" * 36 + b"XYZW", 28000, b"a" * 22 + b"XYZW")),
@@ -211,6 +214,7 @@ def prologue(rs):
 
 
 EPILOGUE = ["destroyrules", "destroycompiler"]
+NOASAN = ("refiberslong", "proc")     # not repeated in the ASan build: 8 scans of 1.1 MB; a scan of the ASan process's own address space
 
 
 # ---------------------------------------------------------------- history generation
@@ -410,6 +414,20 @@ def run(chk):
         ops = [sc(11), sc(10), sc(11), dict(kind="scan", inp=10, script=[(0, "a")], plan=[], m="scan:10:0=a:-", h=scan_lines(inputs[10], [(0, "a")], [])),
                sc(11), sc(10), sc(5), sc(11), dict(kind="destroy", m="destroy", h=["sdestroy"])]
         hists.append(("many%d_%dx%d_hot%d" % (j, rs[1], rs[2], rs[3]), ops, rs))
+    # yr_scanner_scan_proc (own pid) sets SCAN_FLAGS_PROCESS_MEMORY for the duration of the scan: whatever way the
+    # process scan ends, the flag must be gone and later scans of a DLL / a shared object must equal their fresh twins.
+    # What the process scan itself reports depends on the process image and is not compared.
+    def proc(script="-"):
+        return dict(kind="proc", m="resume:-", h=["strings 0", "script " + script, "scanproc", "strings 1"])     # (a no-op for the model)
+    def st(tok, line):
+        return dict(kind="set", m=tok, h=[line])
+    pf = [("proc0", [sc(30), proc("0:2"), sc(30), sc(3), sc(1), dst]),
+          ("proc1", [sc(3), st("pt:1", "stimeoutns 1"), proc(), st("pt:0", "stimeoutns 0"), sc(30), sc(3), dst]),
+          ("proc2", [proc(), sc(30), proc("10:1"), sc(30), sc(3), st("sf:26", "sflags 26"), proc("3:2"), sc(30), st("sf:8", "sflags 8"), sc(30), dst])]
+    if tier != "quick":
+        pf += [("proc%d" % (3 + k), [sc(30), proc("%d:2" % k), sc(30), sc(3), proc("%d:1" % (k + 8)), sc(30), dst]) for k in range(1, 12)]
+    for hid, ops in pf:
+        hists.append((hid, ops, False))
     # the regexp fiber pool lives across scans: every fiber must be back after a scan that was cut short by the
     # match limit inside a backward regexp execution; after several such scans a fiber-hungry regexp must still match
     noisy_ids = [20] if tier == "quick" else [20, 23, 24]
@@ -518,10 +536,19 @@ def run(chk):
         settings = []
         ep_before = "-"
         dead = False
+        after_proc = False
         for oi, (o, mt) in enumerate(zip(ops, toks)):
             evals += 1
             mtrace, mstate = mt.split(" @ ")
             ms = ctx_canon_model(mstate)
+            if o["kind"] == "proc":
+                if pos >= len(res) or not res[pos].startswith("scan msgs="):
+                    chk.violation("crash", "%s: yr_scanner_scan_proc: %s" % (hid, res[pos:pos + 1]), replay)
+                    dead = True
+                    break
+                nontriv.add(("proc", parse_scan(res[pos])[1], o["h"][1]))
+                pos += 1
+                after_proc = True
             if o["kind"] in ("scan", "resume"):
                 if pos >= len(res) or res[pos].startswith("crash"):
                     key = "modname-crash" if wt is True else "crash"
@@ -577,8 +604,10 @@ def run(chk):
                 break
             ic = ctx_canon_impl(parse_ctx(res[pos]), None)
             pos += 1
-            diffs = [k for k in ("ep", "fs", "fl", "to", "nb", "le", "d", "objs") if ic[k] != ms[k] and not (k == "d" and ms["susp"] == "1")]
-            if ic["pool"] != ms["pool"] and ms["susp"] == "0" and not hid.startswith("abandon"):     # (a waiting scan has allocated some of its fibers already)
+            diffs = [k for k in ("ep", "fs", "fl", "to", "nb", "le", "d", "objs") if ic[k] != ms[k] and not (k == "d" and ms["susp"] == "1")
+                     # (the model does not follow the process scan itself: entry point, file size, pool and last error it leaves are not predicted)
+                     and not (after_proc and k in ("ep", "fs", "le"))]
+            if ic["pool"] != ms["pool"] and ms["susp"] == "0" and not hid.startswith("abandon") and not after_proc:     # (a waiting scan has allocated some of its fibers already)
                 diffs.append("pool")
             if not ic["pool_all_free"]:
                 chk.violation("pool", "%s op %d: fibers not returned to the pool between scans" % (hid, oi), replay)
@@ -630,10 +659,10 @@ def run(chk):
 
     # ---- destroy after the prefix: nothing may stay allocated (ASan build)
     ha = hharness("asan")
-    aout, aerr = vlib.run_cases(ha, [c for c in hcases if not c[0].startswith("refiberslong")], timeout=1500)
+    aout, aerr = vlib.run_cases(ha, [c for c in hcases if not c[0].startswith(NOASAN)], timeout=1500)
     leak_ok = 0
     for hid, ops, wt in hists:
-        if hid not in leak_expect or hid.startswith("refiberslong"):
+        if hid not in leak_expect or hid.startswith(NOASAN):
             continue
         exp, replay = leak_expect[hid]
         lc = [l for l in aout.get(hid, []) if l.startswith("leakcheck")]
@@ -671,7 +700,7 @@ def run(chk):
                   "string matches, console.log, externals, a private rule; inputs PE (tiny, tiny-idata), ELF, text, empty, 1000100 x 'a' "
                   "(too many matches), two block lists; an aimed family of many-string rule sets (7x10, 2x6, in thorough also 1x70, 9x8, "
                   "1x130 strings) in which the string with a chosen high global index (69, 20, 9, ...) reaches YR_MAX_STRING_MATCHES on "
-                  "1.1 MB of 'q' and a small buffer containing it is scanned before and after; a regexp family (greedy / ungreedy repeats and a "
+                  "1.1 MB of 'q' and a small buffer containing it is scanned before and after; yr_scanner_scan_proc(getpid()) ending normally / by CALLBACK_ERROR / CALLBACK_ABORT / time-out, followed by scans of a PE DLL and an ELF shared object; a regexp family (greedy / ungreedy repeats and a "
                   "hex string with alternation, all with backward code) that reaches the match limit mid-run 6 times on one scanner, "
                   "then a regexp needing 800 of the 1024 pool fibers; callback abort/error scripts, 1 ns time-outs, not-ready blocks; hazard "
                   "histories (abandoned suspension, destroy while suspended, external named like a module). distinct = (input, rc, "
